@@ -6,7 +6,7 @@ import gen, s4, lang, findings
 from props import c01
 
 PROP_FILE = 'Props/C04.v'
-GROUPS = ['imain']
+GROUPS = ['imain', 'headform']
 LEAF_LEMMAS = []
 ASSUMPTIONS = ['gringo/clasp contract G1-G6 (DESIGN.md 5.3)',
                'completeness of the head translation (every temporal stable model is reported) is NOT a theorem; it is covered by this correspondence only (a test)']
